@@ -607,7 +607,19 @@ impl<'a, 'ast> Visit<'ast> for Ed<'a> {
         let bend = c.body.span().byte_range().end;
         if let Some(h) = self.dir.closures.get(&idx) {
             self.closures_used.push(idx);
-            self.push(start, bstart, format!("{} ", h.trim()), "splice-closure-header", true);
+            // `$k` in a spliced header stands for the name the source gives to parameter k, so that
+            // renaming a closure parameter does not invalidate the header
+            let mut h = h.trim().to_string();
+            for (k, p) in c.inputs.iter().enumerate() {
+                let inner = match p {
+                    syn::Pat::Type(pt) => &*pt.pat,
+                    other => other,
+                };
+                if let syn::Pat::Ident(pi) = inner {
+                    h = h.replace(&format!("${k}"), &pi.ident.to_string());
+                }
+            }
+            self.push(start, bstart, format!("{} ", h), "splice-closure-header", true);
             // E12: pattern parameters are not supported by Verus closures: `|(a, b)| body` becomes
             // `|vx_arg0: T| { let (a, b) = vx_arg0; body }` (the spec header names the parameter)
             let mut destructure = String::new();
@@ -1205,14 +1217,29 @@ fn main() {
                     let mut cf = ClosureFinder { want: k, seen: 0, found: None };
                     cf.visit_block(f.block);
                     let c = cf.found.unwrap_or_else(|| die(&format!("{ctx}: closure#{k} to hoist not found ({} closures)", cf.seen)));
-                    let sigt = d.sig.clone().unwrap_or_else(|| die(&format!("{ctx}: @@hoist needs @@sig")));
+                    let mut sigt = d.sig.clone().unwrap_or_else(|| die(&format!("{ctx}: @@hoist needs @@sig")));
+                    let mut hspec = d.spec.clone();
+                    let mut hpre = d.pre.clone();
+                    // `$k` = the name the source gives to the closure's parameter k
+                    for (k, p) in c.inputs.iter().enumerate() {
+                        let inner = match p {
+                            syn::Pat::Type(pt) => &*pt.pat,
+                            other => other,
+                        };
+                        if let syn::Pat::Ident(pi) = inner {
+                            let name = pi.ident.to_string();
+                            sigt = sigt.replace(&format!("${k}"), &name);
+                            hspec = hspec.replace(&format!("${k}"), &name);
+                            hpre = hpre.replace(&format!("${k}"), &name);
+                        }
+                    }
                     ed.visit_expr(&c.body);
                     ed.finish_cfg();
                     check_used(&ed, d, &ctx);
                     let br = c.body.span().byte_range();
                     let body = apply_edits(&src.text, br.start, br.end, &ed.edits, &mut counts).unwrap_or_else(|e| die(&format!("{ctx}: {e}")));
                     *counts.entry("E11-closure-hoisted".into()).or_insert(0) += 1;
-                    emitted = format!("{sigt}\n{}{{\n{}{}\n}}\n", d.spec, d.pre, body);
+                    emitted = format!("{sigt}\n{}{{\n{}{}\n}}\n", hspec, hpre, body);
                     src_range = (c.span().byte_range().start, br.end);
                 } else if d.is_slice {
                     let from = d.from.as_deref().unwrap_or_else(|| die(&format!("{ctx}: @@slice needs @@from")));
